@@ -1,7 +1,7 @@
 """C03 — support mappings (structural clauses)."""
 from . import scopes
 from ..core.report import DOMAIN_D
-from ..rules import colliders, frame, signalign, eager
+from ..rules import colliders, frame, signalign, eager, affine
 from .common import e1, e2
 
 MODS = {"distance3d.geometry", "distance3d.colliders", "distance3d.mesh", "distance3d.utils"}
@@ -24,6 +24,8 @@ def run(idx, rep, tier):
     frame.r_frame_contracts(idx, rep, fr_rets, ("support", "utils"), floor=20, unknown_ceiling=20)
     signalign.r_signalign(idx, rep)
     colliders.r_querystate(idx, rep)
+    affine.r_originfree(idx, rep, ["distance3d.mesh", "distance3d.geometry", "distance3d.colliders"], floor=20)
+    colliders.r_coherence(idx, rep, relevant_to="support_function")      # 'every collider' includes colliders that were moved with update_pose
     colliders.r_margin(idx, rep, floor=3)
     colliders.r_axis(idx, rep)
     colliders.r_aabbargs(idx, rep)
